@@ -256,6 +256,11 @@ impl<K, V> EntryPtr<K, V> {
     pub(crate) fn addr(&self) -> usize {
         self.ptr as usize
     }
+
+    /// The raw pointer itself, without dereferencing it.
+    pub(crate) fn raw(&self) -> *const Entry<K, V> {
+        self.ptr
+    }
 }
 
 #[cfg(test)]
